@@ -16,7 +16,7 @@ import json, os, shutil, subprocess, sys, time
 
 VERIF = os.path.dirname(os.path.abspath(__file__))
 BIN = os.path.join(VERIF, ".target", "release", "rtcp-sim")
-SCRATCH = "/var/tmp/rtcp-verif-selftest"
+SCRATCH = os.environ.get("VERIF_SCRATCH", "/var/tmp/rtcp-verif-selftest")
 PROPS = ["C01", "C06", "C08", "C11", "C17", "C18", "C20"]
 ENV = dict(os.environ, CARGO_NET_OFFLINE="true")
 
@@ -65,7 +65,7 @@ BREAKING = [
     # C01
     ("c01-sr-drop-count-check", "C01", "src/sender.rs", "        if data.len() < req_len {", "        if data.len() + 24 < req_len {"),
     ("c01-nack-end-test", "C01", "src/feedback/nack.rs", "            if idx + 3 >= self.parser.data.len() {", "            if idx + 3 > self.parser.data.len() {"),
-    ("c01-fir-end-test", "C01", "src/feedback/fir.rs", "        if idx + 7 >= self.parser.data.len() {", "        if idx + 6 >= self.parser.data.len() {"),
+    ("c01-fir-end-test", "C01", "src/feedback/fir.rs", "        if idx + 7 >= self.parser.data.len() {", "        if idx + 3 >= self.parser.data.len() {"),
     ("c01-rpsi-drop-padding-check", "C01", "src/feedback/rpsi.rs", "        if ret.padding_bytes() > data.len() - 2 {", "        if ret.padding_bytes() > data.len() {"),
     ("c01-sdes-item-end", "C01", "src/sdes.rs", "        if end > data.len() {\n            return Err(RtcpParseError::Truncated {\n                expected: end,", "        if end > data.len() + 1 {\n            return Err(RtcpParseError::Truncated {\n                expected: end,"),
     ("c01-bye-reason-check", "C01", "src/bye.rs", "            if reason_len_offset + 1 + reason_len > data.len() {", "            if reason_len_offset + reason_len > data.len() {"),
@@ -230,6 +230,7 @@ def sensitivity(only):
 
 
 def seeded(only):
+    """Run every check against each independently written change under /verif/seeded."""
     rc, out = sh(f"{VERIF}/check build")
     base = f"{VERIF}/seeded"
     bad = 0
@@ -244,16 +245,27 @@ def seeded(only):
             bad += 1
             continue
         ok, passed, _ = build_and_test_scratch()
-        caught_by = []
-        for p in meta.get("expected_checks", [meta["property"]]):
+        caught_by = {}
+        for p in PROPS:
             rc, out, replay = run_scratch(p)
             if rc == 1 and replay:
-                caught_by.append(p)
-        print(f"{name}: suite {'passes' if ok else 'FAILS'} ({passed}); breaks {meta['property']}; caught by {caught_by or 'NOTHING'}")
-        if not caught_by:
+                cls = [l for l in out.splitlines() if l.startswith("#   class=")]
+                # the replay must pass on the pristine tree
+                rc3, _ = sh(f"{BIN} replay {replay}")
+                caught_by[p] = {"class": cls[0][len("#   class="):][:200] if cls else "", "replay_passes_on_pristine_tree": rc3 == 0}
+            elif rc != 0:
+                caught_by[p] = {"class": f"harness rc={rc}", "replay_passes_on_pristine_tree": False}
+        owner = meta["property"]
+        print(f"{name}: suite {'passes' if ok else 'FAILS'} ({passed}); breaks {owner}; caught by {sorted(caught_by) or 'NOTHING'}" + ("" if owner in caught_by else f"  <-- NOT caught by its own property's check"))
+        for p, c in caught_by.items():
+            print(f"     {p}: {c['class'][:150]}")
+        meta["suite_passes_with_change"] = ok
+        meta["caught_by"] = caught_by
+        json.dump(meta, open(f"{base}/{name}/meta.json", "w"), indent=1)
+        if owner not in caught_by:
             bad += 1
         shutil.rmtree(SCRATCH, ignore_errors=True)
-    print("seeded:", "OK" if bad == 0 else f"{bad} MISSED")
+    print("seeded:", "OK" if bad == 0 else f"{bad} MISSED by the owning check")
     return 0 if bad == 0 else 2
 
 
